@@ -167,8 +167,9 @@ pub enum Op {
     /// Drop the database in `slot`.
     Drop { slot: usize },
     /// Another running instance: take the index writer lock of the on-disk index (if the directory
-    /// holds an index that opens) and keep it for `ms` milliseconds of real time. While it is held
-    /// an empty file `<XDG_DATA_HOME>/.verif-holding` exists.
+    /// holds an index that opens) and keep it until a file `<XDG_DATA_HOME>/.verif-release` appears,
+    /// at most `ms` milliseconds of real time. While it is held an empty file
+    /// `<XDG_DATA_HOME>/.verif-holding` exists.
     HoldWriter { ms: u64 },
 }
 
